@@ -388,10 +388,8 @@ func (p *Parser) parseStruct(call *ast.CallExpr, info *types.Info, filePath stri
 		isPointer = true
 	}
 
+	// wire.Struct(new(T)) without field names injects no field at all
 	fields := extractStringFields(call.Args[1:])
-	if len(fields) == 0 {
-		fields = []string{"*"}
-	}
 
 	return &WireStruct{
 		baseWirePattern: baseWirePattern{
